@@ -460,6 +460,11 @@ func c17FailClosed(c *Ctx, i int, r *gen.R) {
 			c.Rec.Violate("renders-after-unknown-name", fmt.Sprintf("after the table was set to the unknown name %q, RenderTo wrote %q with error %v", name, sw.accepted, rerr), desc)
 			return
 		}
+		if bad := refusedEverywhere(tt.RenderTo); bad != "" {
+			c.Rec.Violate("renders-after-unknown-name:depending-on-the-destination", fmt.Sprintf("after the table was set to the unknown name %q: %s", name, bad), desc)
+			return
+		}
+		c.Rec.Count("refusals_probed_with_every_kind_of_destination", 1)
 	}
 	// the same table goes on: known and unknown names (and explicit decorations) in any order; after
 	// every step the table renders iff the last thing set was a known decoration
